@@ -76,6 +76,18 @@ SCRIPTS = [
     p2pkh(4),
 ]
 ABSENT_SCRIPTS = [p2pkh(200), b'\x52']
+# scripts a check may add to what is observed and compared (e.g. C14's ground scripts whose
+# script hashes sit in adjacent 2-byte history-key prefixes); set and reset by that check
+EXTRA_SCRIPTS = []
+
+
+def adjacent_scripts():
+    '''Pre-ground always-spendable scripts with hashX prefixes 1000 1001 1002 fffe ffff 0000 0001
+    00ff 0100 (tools/grind_adjacent.py).'''
+    path = os.path.join(os.path.dirname(os.path.dirname(os.path.abspath(__file__))), 'data',
+                        'adjacent_scripts.json')
+    with open(path) as f:
+        return [bytes.fromhex(x['script']) for x in json.load(f)['scripts']]
 VALUES = [50, 0, 1, 7, 2 ** 63 - 1, 1000, 25, 3]
 
 GEN_PREV = (bytes(32), 0xffffffff)
